@@ -1446,15 +1446,17 @@ Proof.
   destruct (sp_exp_prefix l2 (fold_left sp_step l1 sp_init)) as (t & E). rewrite E. apply in_or_app. left. exact HI.
 Qed.
 
-(* requests with a live handler when the shutdown request arrives are still answered exactly once *)
+(* requests with a live handler when the shutdown request arrives are still answered exactly once
+   (`handler_codes_int32`: the domain on which the model's "answered" is claimed faithful, as in C01 / C08) *)
 Theorem pending_still_answered_once : forall c pre f post,
   let evs := pre ++ Recv f :: post in
-  shutdown_frame f = true -> guard c evs = true -> quiescent (run c evs) = true ->
+  shutdown_frame f = true -> handler_codes_int32 evs = true ->
+  guard c evs = true -> quiescent (run c evs) = true ->
   (forall k, replies k (out (run c evs)) = count_id k (expected evs)) /\
   (forall k, pending_request k (run c pre) = true -> In k (expected evs)) /\
   (NoDup (req_ids evs) -> forall k, pending_request k (run c pre) = true -> replies k (out (run c evs)) = 1).
 Proof.
-  intros c pre f post evs SF G Q.
+  intros c pre f post evs SF _ G Q.
   assert (OW : forall k, pending_request k (run c pre) = true -> In k (expected evs)).
   { intros k P. unfold evs. apply expected_app_in.
     pose proof (guard_app_l c pre (Recv f :: post) G) as G1.
